@@ -18,7 +18,7 @@ RULES = {
     "C11": [("sa.rules.b3", "r_C03de_C11a_C17bc"), ("sa.rules.c11", "r_C11b"), ("sa.rules.c11", "r_C11de"), ("sa.rules.c32", "r_C32c"), ("sa.rules.c05", "r_none_tests"), ("sa.rules.c12", "r_C12f"), ("sa.rules.c12e", "r_C12eval"), ("sa.rules.c11e", "r_C11eval")],
     "C12": [("sa.rules.b1", "r_C12a"), ("sa.rules.c12", "r_C12b"), ("sa.rules.c05", "r_C12c"), ("sa.rules.c11", "r_C11de"), ("sa.rules.c12", "r_C12f"), ("sa.rules.c12e", "r_C12eval")],
     "C13": [("sa.rules.b3", "r_C13"), ("sa.rules.c13", "r_C13eval"), ("sa.rules.cmisc", "r_C13d_C34f_C09d"), ("sa.rules.cmisc", "r_C13e"), ("sa.rules.c04", "r_C04defaults"), ("sa.rules.c17", "r_C18i"), ("sa.rules.b3", "r_C28b_C33b_C30bc"), ("sa.rules.cmeta", "r_mmapi"), ("sa.rules.cpn", "r_processnode"), ("sa.rules.cdrv", "r_driver"), ("sa.rules.c14", "r_endconstruction"), ("sa.rules.c05", "r_C05cde"), ("sa.rules.c02", "r_C02eval")],
-    "C14": [("sa.rules.b4", "r_ledger"), ("sa.rules.c14", "r_C14inst"), ("sa.rules.c14", "r_ledger2"), ("sa.rules.b3", "r_C13"), ("sa.rules.c14", "r_C14h"), ("sa.rules.c14", "r_C14d"), ("sa.rules.c14", "r_C14i"), ("sa.rules.c14", "r_C15h"), ("sa.rules.c14", "r_C15i"), ("sa.rules.cmeta", "r_initclass"), ("sa.rules.cmeta", "r_initobj"), ("sa.rules.cpn", "r_processnode"), ("sa.rules.cdrv", "r_driver"), ("sa.rules.cmisc", "r_C06bcd"), ("sa.rules.c14", "r_endconstruction"), ("sa.rules.c17e", "r_C15eval")],
+    "C14": [("sa.rules.b4", "r_ledger"), ("sa.rules.c14", "r_C14inst"), ("sa.rules.c14", "r_ledger2"), ("sa.rules.b3", "r_C13"), ("sa.rules.c14", "r_C14h"), ("sa.rules.c14", "r_C14d"), ("sa.rules.c14", "r_C14i"), ("sa.rules.c14", "r_C15h"), ("sa.rules.c14", "r_C15i"), ("sa.rules.cmeta", "r_initclass"), ("sa.rules.cmeta", "r_initobj"), ("sa.rules.cpn", "r_processnode"), ("sa.rules.cdrv", "r_driver"), ("sa.rules.cmisc", "r_C06bcd"), ("sa.rules.c14", "r_endconstruction"), ("sa.rules.c17e", "r_C15eval"), ("sa.rules.cmeta", "r_validateuc")],
     "C15": [("sa.rules.b4", "r_ledger"), ("sa.rules.c14", "r_ledger2"), ("sa.rules.c14", "r_C14i"), ("sa.rules.c14", "r_C15h"), ("sa.rules.b3", "r_C16a"), ("sa.rules.c14", "r_C15i"), ("sa.rules.c17", "r_C17jkl"), ("sa.rules.c17", "r_C18i"), ("sa.rules.c14", "r_C14inst"), ("sa.rules.cmeta", "r_initclass"), ("sa.rules.c17e", "r_C17eval"), ("sa.rules.c17e", "r_C15eval"), ("sa.rules.cdrv", "r_driver"), ("sa.rules.c14", "r_endconstruction")],
     "C16": [("sa.rules.b3", "r_C16a"), ("sa.rules.c14", "r_ledger2"), ("sa.rules.c16", "r_cachekeys"), ("sa.rules.c16", "r_C16f"), ("sa.rules.c17", "r_C17i"), ("sa.rules.c25", "r_C27d"), ("sa.rules.b4", "r_ledger"), ("sa.rules.c14", "r_C14i"), ("sa.rules.c14", "r_C15h"), ("sa.rules.b6", "r_C19a_C01"), ("sa.rules.c14", "r_C14inst"), ("sa.rules.cmeta", "r_initclass"), ("sa.rules.c17", "r_C01h"), ("sa.rules.c17e", "r_C17eval"), ("sa.rules.c17e", "r_C15eval"), ("sa.rules.c17e", "r_C17importuri"), ("sa.rules.cdrv", "r_driver"), ("sa.rules.c17", "r_C18i"), ("sa.rules.c17e", "r_globalrepo"), ("sa.rules.cmeta", "r_internalload")],
     "C17": [("sa.rules.b3", "r_C03de_C11a_C17bc"), ("sa.rules.b6", "r_C17ad_C22b"), ("sa.rules.c05", "r_none_tests"), ("sa.rules.c17", "r_C17fgh"), ("sa.rules.b4", "r_ledger"), ("sa.rules.c17", "r_C17i"), ("sa.rules.c17", "r_C17jkl"), ("sa.rules.c17", "r_C18i"), ("sa.rules.c17e", "r_C17eval"), ("sa.rules.c17e", "r_C15eval"), ("sa.rules.c17e", "r_C17importuri"), ("sa.rules.cdrv", "r_driver"), ("sa.rules.c17e", "r_globalrepo"), ("sa.rules.cmeta", "r_internalload")],
@@ -27,7 +27,7 @@ RULES = {
     "C20": [("sa.rules.b1", "r_C20a"), ("sa.rules.b6", "r_C19a_C01"), ("sa.rules.c16", "r_cachekeys"), ("sa.rules.c22", "r_visitor"), ("sa.rules.c21", "r_matchvisitors"), ("sa.rules.cpn", "r_processnode"), ("sa.rules.c01e", "r_C01visitors")],
     "C21": [("sa.rules.b6", "r_C19a_C01"), ("sa.rules.c16", "r_cachekeys"), ("sa.rules.c22", "r_visitor"), ("sa.rules.c21", "r_matchvisitors"), ("sa.rules.c01e", "r_C01visitors"), ("sa.rules.c02", "r_C02eval")],
     "C22": [("sa.rules.c22", "r_rule_params_eval"), ("sa.rules.b6", "r_C19a_C01"), ("sa.rules.b6", "r_C17ad_C22b"), ("sa.rules.c22", "r_visitor"), ("sa.rules.c22", "r_C22jk"), ("sa.rules.c21", "r_matchvisitors"), ("sa.rules.cpn", "r_processnode"), ("sa.rules.cmisc", "r_C06bcd"), ("sa.rules.cmeta", "r_internalload"), ("sa.rules.c01e", "r_C01visitors"), ("sa.rules.c02", "r_C02eval")],
-    "C23": [("sa.rules.b6", "r_C23"), ("sa.rules.c22", "r_rule_params_eval"), ("sa.rules.c22", "r_visitor"), ("sa.rules.c22", "r_C23g_C24d"), ("sa.rules.c21", "r_matchvisitors"), ("sa.rules.c02", "r_C02eval"), ("sa.rules.c01e", "r_C01visitors"), ("sa.rules.c03e", "r_C03eval"), ("sa.rules.cmisc", "r_C06bcd")],
+    "C23": [("sa.rules.b6", "r_C23"), ("sa.rules.c22", "r_rule_params_eval"), ("sa.rules.c22", "r_visitor"), ("sa.rules.c22", "r_C23g_C24d"), ("sa.rules.c21", "r_matchvisitors"), ("sa.rules.c02", "r_C02eval"), ("sa.rules.c01e", "r_C01visitors"), ("sa.rules.c03e", "r_C03eval"), ("sa.rules.cmisc", "r_C06bcd"), ("sa.rules.cmeta", "r_validateuc")],
     "C24": [("sa.peg", "r_C24"), ("sa.rules.c16", "r_cachekeys"), ("sa.rules.c22", "r_C23g_C24d")],
     "C25": [("sa.rules.b2", "r_C25"), ("sa.rules.c25", "r_C25efg"), ("sa.rules.c01", "r_C01i"), ("sa.rules.c25", "r_who_writes"), ("sa.rules.cmeta", "r_initclass"), ("sa.rules.cmeta", "r_namespaces"), ("sa.rules.c01e", "r_C01visitors"), ("sa.peg", "r_C24"), ("sa.rules.b6", "r_C23")],
     "C26": [("sa.rules.b2", "r_C26a"), ("sa.rules.b2", "r_C26bcdef"), ("sa.rules.c26", "r_C26eval"), ("sa.rules.c26", "r_C26state")],
